@@ -1,0 +1,34 @@
+//go:build verif
+
+package bmc
+
+import (
+	"context"
+	"net"
+	"time"
+
+	"github.com/cenkalti/backoff/v4"
+)
+
+// VerifTransport is structurally identical to the internal transport.Transport
+// interface, so a value of it can back a connection without the internal
+// package being importable by the verification harness.
+type VerifTransport interface {
+	Address() net.Addr
+	Send(context.Context, []byte) ([]byte, error)
+	Close() error
+}
+
+// NewV2SessionlessTransportVerif builds a V2SessionlessTransport over a
+// caller-supplied transport, performing the same accounting as DialV2. If b is
+// non-nil it replaces the connection's shared exponential back-off, which
+// sessions created from the connection use as well.
+func NewV2SessionlessTransportVerif(t VerifTransport, timeout time.Duration, b backoff.BackOff) *V2SessionlessTransport {
+	v2ConnectionOpenAttempts.Inc()
+	v2ConnectionsOpen.Inc()
+	s := newV2SessionlessTransport(t, &dialConfig{timeout: timeout})
+	if b != nil {
+		s.V2Sessionless.backoff = b
+	}
+	return s
+}
